@@ -134,7 +134,7 @@ def gen_labels(rng, nS, nA, nO, kinds=None):
 
 
 def gen_pomdp(rng, abs_kind=None, smax=4, amax=3, omax=3, smin=1, amin=1, omin=1, unreach=False,
-              extremes=False, labels=False, near1=False):
+              extremes=False, labels=False, near1=False, dense=False):
     """unreach: the POMDP is given to msdm with EXPLICIT _state_list/_action_list and has at least one state
     that cannot be reached from the initial distribution (with real dynamics and rewards of its own): the
     evaluator's table is checked at every (node, state) pair, reachable or not"""
@@ -165,7 +165,10 @@ def gen_pomdp(rng, abs_kind=None, smax=4, amax=3, omax=3, smin=1, amin=1, omin=1
                         Rw[s][a][s] = F(rng.choice([-4, -3, -2, -1, 1, 2, 3, 4]))
                     continue
                 allowed = live_set if (unreach and s in live_set) else list(range(nS))
-                T[s][a] = _tiny_row(rng, nS, allowed) if (extremes and rng.random() < .4) else _row_on(rng, nS, allowed)
+                if dense:      # every transition row spreads over several states: the next state differs from the current one
+                    T[s][a] = _row(rng, nS, support=rng.sample(list(allowed), min(3, len(allowed))))
+                else:
+                    T[s][a] = _tiny_row(rng, nS, allowed) if (extremes and rng.random() < .4) else _row_on(rng, nS, allowed)
                 for t in range(nS):
                     if T[s][a][t] > 0 and rng.random() < .8:
                         Rw[s][a][t] = F(rng.randint(-16, 16), 4) if rng.random() < .3 else F(rng.randint(-4, 4))
@@ -174,6 +177,12 @@ def gen_pomdp(rng, abs_kind=None, smax=4, amax=3, omax=3, smin=1, amin=1, omin=1
                 if all(Rw[s][a][t] == 0 for a in range(nA) for t in range(nS)) and all(T[s][a][s] == 1 for a in range(nA)):
                     Rw[s][0][s] = F(2)
         Ob = [[(_tiny_row(rng, nO, range(nO)) if (extremes and rng.random() < .3) else _row(rng, nO)) for _ in range(nS)] for _ in range(nA)]
+        if dense:
+            # informative observations: every observation possible everywhere, rows differ between next states
+            for _ in range(20):
+                Ob = [[_row(rng, nO, support=list(range(nO))) for _ in range(nS)] for _ in range(nA)]
+                if all(len({tuple(Ob[a][t]) for t in range(nS)}) == nS for a in range(nA)) or nO == 1:
+                    break
         if extremes:
             scale = rng.choice([1, 1000, 10 ** 6])        # large reward magnitudes
             Rw = [[[x * scale for x in row] for row in sa] for sa in Rw]
